@@ -254,6 +254,9 @@ func private(v ssa.Value, cache map[ssa.Value]bool) bool {
 			ok = ok && r.Addr == v && r.Val != v
 		case *ssa.Slice:
 			ok = ok && r.X == v && privateSlice(r, cache)
+		case *ssa.MakeClosure:
+			// captured by a closure that only reads the variable: still written by this function's stores only
+			ok = ok && readOnlyCapture(r, v)
 		default:
 			ok = false
 		}
@@ -263,6 +266,35 @@ func private(v ssa.Value, cache map[ssa.Value]bool) bool {
 	}
 	cache[v] = ok
 	return ok
+}
+
+// readOnlyCapture: the closure mc captures the variable at address v and does nothing with it but load it.
+func readOnlyCapture(mc *ssa.MakeClosure, v ssa.Value) bool {
+	fn, ok := mc.Fn.(*ssa.Function)
+	if !ok || len(fn.FreeVars) != len(mc.Bindings) {
+		return false
+	}
+	for i, bd := range mc.Bindings {
+		if bd != v {
+			continue
+		}
+		refs := fn.FreeVars[i].Referrers()
+		if refs == nil {
+			return false
+		}
+		for _, ref := range *refs {
+			switch r := ref.(type) {
+			case *ssa.DebugRef:
+			case *ssa.UnOp:
+				if r.Op != token.MUL {
+					return false
+				}
+			default:
+				return false
+			}
+		}
+	}
+	return true
 }
 
 func privateSlice(s *ssa.Slice, cache map[ssa.Value]bool) bool {
